@@ -13,6 +13,7 @@ CONSTANTS
   HsMax = 3
   Retries = 2
   JamLen = 3
+  KeepHistory = TRUE
 INVARIANT HistoryOK
 INVARIANT Quiet
 INVARIANT TypeOK
